@@ -192,3 +192,156 @@ Lemma completed_replacement : forall s target o,
   otmp o <> target -> run_ok s (prog target o) = true ->
   read (run s (prog target o)) target = Some (odata o) /\ lookup (run s (prog target o)) (otmp o) = None.
 Proof. intros s target o H. exact (proj1 (run_prog_full s target o H)). Qed.
+
+(** ---- moveTo across file systems ---- *)
+Lemma run_app_fail : forall l1 l2 s, run_ok s l1 = false -> run s (l1 ++ l2) = run s l1.
+Proof.
+  induction l1 as [|st l1 IH]; intros l2 s H; [discriminate|].
+  cbn in *. destruct (apply s st); [now apply IH | reflexivity].
+Qed.
+
+Lemma move_head_frame : forall tD c q, q <> tD ->
+  Forall (fun st => ~ In q (touches st)) (SCreatX tD :: write_steps tD c).
+Proof.
+  intros tD c q H. constructor; [cbn; intros [E|[]]; congruence | now apply write_steps_touch].
+Qed.
+
+Lemma move_head_run : forall s tD c,
+  let h := SCreatX tD :: write_steps tD c in
+  (forall q, q <> tD -> lookup (run s h) q = lookup s q)
+  /\ (run_ok s h = true -> lookup (run s h) tD = Some (File c)).
+Proof.
+  intros s tD c h. split.
+  - intros q Hq. apply run_frame. now apply move_head_frame.
+  - subst h. cbn [run run_ok apply]. destruct (lookup s tD) eqn:E; [discriminate|]. intros _.
+    destruct (run_write_steps c (update s tD (File [])) tD []) as (_ & W2 & _); [apply lookup_update_eq|].
+    exact W2.
+Qed.
+
+(** the state after each prefix of the three closing steps, from a state where [tD] holds the copy *)
+Lemma move_tail : forall s2 src dst tD tS c m suf,
+  src <> dst -> tD <> src -> tD <> dst -> tS <> dst -> tS <> tD -> tS <> src ->
+  lookup s2 tD = Some (File c) -> lookup s2 src = Some (File c) ->
+  [SRename tD dst; SRename src tS; SUnlink tS] = m ++ suf ->
+  (read (run s2 m) dst = read s2 dst \/ read (run s2 m) dst = Some c)
+  /\ (read (run s2 m) src = Some c \/ read (run s2 m) dst = Some c).
+Proof.
+  intros s2 src dst tD tS c m suf N1 N2 N3 N4 N5 N6 LD LS E.
+  assert (Rs : read s2 src = Some c) by (unfold read; now rewrite LS).
+  destruct m as [|a m]; [cbn; auto|]. cbn in E. injection E as <- E.
+  cbn [run apply]. rewrite LD.
+  assert (Ne : path_eqb tD dst = false) by now apply path_eqb_neq. rewrite Ne.
+  (* the rename onto the destination: refused only when a directory is in the way *)
+  assert (Step1 : forall s3, s3 = update (remove s2 tD) dst (File c) ->
+            (read (run s3 m) dst = read s2 dst \/ read (run s3 m) dst = Some c)
+            /\ (read (run s3 m) src = Some c \/ read (run s3 m) dst = Some c)).
+  { intros s3 ->. set (s3 := update (remove s2 tD) dst (File c)).
+    assert (D3 : lookup s3 dst = Some (File c)) by apply lookup_update_eq.
+    assert (S3 : lookup s3 src = Some (File c)).
+    { unfold s3. rewrite lookup_update_neq by congruence. rewrite lookup_remove_neq by congruence. exact LS. }
+    assert (Rd : forall s', lookup s' dst = Some (File c) -> read s' dst = Some c)
+      by (intros s' H; unfold read; now rewrite H).
+    destruct m as [|b m]; [cbn; split; right; now apply Rd|].
+    cbn in E. injection E as <- E. cbn [run apply]. rewrite S3.
+    assert (Ne2 : path_eqb src tS = false) by (apply path_eqb_neq; congruence). rewrite Ne2.
+    assert (Step2 : forall s4, s4 = update (remove s3 src) tS (File c) ->
+              (read (run s4 m) dst = read s2 dst \/ read (run s4 m) dst = Some c)
+              /\ (read (run s4 m) src = Some c \/ read (run s4 m) dst = Some c)).
+    { intros s4 ->. set (s4 := update (remove s3 src) tS (File c)).
+      assert (D4 : lookup s4 dst = Some (File c)).
+      { unfold s4. rewrite lookup_update_neq by assumption. rewrite lookup_remove_neq by assumption. exact D3. }
+      destruct m as [|u m]; [cbn; split; right; now apply Rd|].
+      cbn in E. injection E as <- E. assert (m = []) as -> by (destruct m; [reflexivity | discriminate]).
+      assert (A : apply s4 (SUnlink tS) = Some (remove s4 tS)) by (cbn [apply]; unfold s4; now rewrite lookup_update_eq).
+      cbn [run]. rewrite A.
+      split; right; apply Rd; rewrite lookup_remove_neq by assumption; exact D4. }
+    destruct (lookup s3 tS) as [[x| |t]|]; try (now apply Step2).
+    (* a directory sits at the source-side temporary: refused, the source is still in place *)
+    cbn [run]. split; right; now apply Rd. }
+  destruct (lookup s2 dst) as [[x| |t]|] eqn:LDst; try (now apply Step1).
+  cbn [run]. split; [now left | left; exact Rs].
+Qed.
+
+Lemma move_crash : forall s src dst tD tS c pre suf,
+  src <> dst -> tD <> src -> tD <> dst -> tS <> dst -> tS <> tD -> tS <> src ->
+  read s src = Some c ->
+  move_prog s src dst tD tS = pre ++ suf ->
+  (read (run s pre) dst = read s dst \/ read (run s pre) dst = Some c)
+  /\ (read (run s pre) src = Some c \/ read (run s pre) dst = Some c).
+Proof.
+  intros s src dst tD tS c pre suf N1 N2 N3 N4 N5 N6 Rs E. unfold move_prog in E. rewrite Rs in E.
+  change (SCreatX tD :: write_steps tD c ++ [SRename tD dst; SRename src tS; SUnlink tS])
+    with ((SCreatX tD :: write_steps tD c) ++ [SRename tD dst; SRename src tS; SUnlink tS]) in E.
+  assert (Ls : lookup s src = Some (File c)).
+  { unfold read in Rs. destruct (lookup s src) as [[x| |t]|]; inversion Rs; reflexivity. }
+  destruct (app_split_cases _ _ _ _ E) as [[m [E1 _]] | [m [E1 E2]]].
+  - (* still copying: only the destination-side temporary is touched *)
+    assert (F : forall q, q <> tD -> lookup (run s pre) q = lookup s q).
+    { intros q Hq. apply run_frame. apply (Forall_prefix _ pre m). rewrite <- E1. now apply move_head_frame. }
+    split; left; [|rewrite <- Rs]; apply read_lookup_eq; apply F; congruence.
+  - subst pre. destruct (move_head_run s tD c) as [F H].
+    destruct (run_ok s (SCreatX tD :: write_steps tD c)) eqn:Ok.
+    + rewrite run_app by assumption.
+      set (s2 := run s (SCreatX tD :: write_steps tD c)) in *.
+      assert (Rd : read s2 dst = read s dst) by (apply read_lookup_eq; apply F; congruence).
+      rewrite <- Rd.
+      apply move_tail with tD tS suf; auto. rewrite F by congruence. exact Ls.
+    + rewrite run_app_fail by assumption.
+      split; left; [|rewrite <- Rs]; apply read_lookup_eq; apply F; congruence.
+Qed.
+
+Lemma rename_result : forall s a b n s', lookup s a = Some n -> a <> b ->
+  apply s (SRename a b) = Some s' -> s' = update (remove s a) b n.
+Proof.
+  intros s a b n s' L Ne H. cbn in H. rewrite L in H.
+  assert (E : path_eqb a b = false) by now apply path_eqb_neq. rewrite E in H.
+  destruct (lookup s b) as [[x| |t]|]; destruct n; inversion H; reflexivity.
+Qed.
+
+Lemma unlink_result : forall s p s', apply s (SUnlink p) = Some s' -> s' = remove s p.
+Proof. intros s p s' H. cbn in H. destruct (lookup s p) as [[x| |t]|]; inversion H; reflexivity. Qed.
+
+Lemma move_complete : forall s src dst tD tS c,
+  src <> dst -> tD <> src -> tD <> dst -> tS <> dst -> tS <> tD -> tS <> src ->
+  read s src = Some c ->
+  run_ok s (move_prog s src dst tD tS) = true ->
+  let s' := run s (move_prog s src dst tD tS) in
+  read s' dst = Some c /\ lookup s' src = None /\ lookup s' tD = None /\ lookup s' tS = None.
+Proof.
+  intros s src dst tD tS c N1 N2 N3 N4 N5 N6 Rs Ok. unfold move_prog in *. rewrite Rs in *. cbn zeta.
+  change (SCreatX tD :: write_steps tD c ++ [SRename tD dst; SRename src tS; SUnlink tS])
+    with ((SCreatX tD :: write_steps tD c) ++ [SRename tD dst; SRename src tS; SUnlink tS]) in *.
+  rewrite run_ok_app in Ok. apply andb_true_iff in Ok as [Ok1 Ok2].
+  rewrite run_app by assumption.
+  destruct (move_head_run s tD c) as [F H]. specialize (H Ok1).
+  set (s2 := run s (SCreatX tD :: write_steps tD c)) in *.
+  assert (Ls : lookup s2 src = Some (File c)).
+  { rewrite F by congruence. unfold read in Rs. destruct (lookup s src) as [[x| |t]|]; inversion Rs; reflexivity. }
+  cbn [run run_ok] in *.
+  destruct (apply s2 (SRename tD dst)) as [s3|] eqn:A1; [|discriminate].
+  destruct (apply s3 (SRename src tS)) as [s4|] eqn:A2; [|discriminate].
+  destruct (apply s4 (SUnlink tS)) as [s5|] eqn:A3; [|discriminate].
+  apply (rename_result s2 tD dst (File c)) in A1; [|assumption|assumption]. subst s3.
+  assert (S3 : lookup (update (remove s2 tD) dst (File c)) src = Some (File c)).
+  { rewrite lookup_update_neq by congruence. rewrite lookup_remove_neq by congruence. exact Ls. }
+  apply (rename_result _ src tS (File c)) in A2; [|assumption|congruence]. subst s4.
+  apply unlink_result in A3. subst s5.
+  repeat split.
+  - unfold read. rewrite lookup_remove_neq by assumption. rewrite lookup_update_neq by assumption.
+    rewrite lookup_remove_neq by assumption. now rewrite lookup_update_eq.
+  - rewrite lookup_remove_neq by assumption. rewrite lookup_update_neq by assumption. apply lookup_remove_eq.
+  - rewrite lookup_remove_neq by assumption. rewrite lookup_update_neq by assumption.
+    rewrite lookup_remove_neq by congruence. rewrite lookup_update_neq by congruence. apply lookup_remove_eq.
+  - apply lookup_remove_eq.
+Qed.
+
+Lemma move_frame : forall s src dst tD tS pre suf q,
+  move_prog s src dst tD tS = pre ++ suf -> q <> src -> q <> dst -> q <> tD -> q <> tS ->
+  lookup (run s pre) q = lookup s q.
+Proof.
+  intros s src dst tD tS pre suf q E Q1 Q2 Q3 Q4. apply run_frame. apply (Forall_prefix _ pre suf). rewrite <- E.
+  unfold move_prog. destruct (read s src) as [c|]; [|constructor].
+  constructor; [cbn; intros [X|[]]; congruence|].
+  apply Forall_app. split; [now apply write_steps_touch|].
+  repeat constructor; cbn; intuition congruence.
+Qed.
